@@ -40,7 +40,9 @@ def scanner():
 
 
 ALPHA = list(b"abcdefghijklmnopqrstuvwxyzABCXYZ0123456789 .,:;/-_=()[]{}<>!?@#$%*~|+&^")
-PRE = [b"", b"lorem ", b"x = ", b"quux\n", b"call "]
+# (the last three leave an unbalanced quote character in front of the expression: where an expression starts must not depend
+# on how the quotes before it pair up)
+PRE = [b"", b"lorem ", b"x = ", b"quux\n", b"call ", b"don't ", b'say " ', b"' "]
 SUF = [b"", b" dolor", b";", b"\nzzyzx"]
 # a literal chain inside a longer expression: a further joining operator with an operand that is not a literal follows / precedes
 # it (the chain of literals is still the whole maximal run of literals)
